@@ -300,6 +300,9 @@ class StmtMixin(CallMixin):
                     self.fork_raise(st, z3.Not(z3.Select(T.dict_dom(o), ck.t)), "KeyError")
                     self.write_lv(st, o.lv, T.dict_mk(o.ty, z3.Store(T.dict_dom(o), ck.t, False), T.dict_val(o)))
                     continue
+            if isinstance(tgt, ast.Name) and tgt.id in st.env and tgt.id not in st.ghost:
+                del st.env[tgt.id]          # `del local`: the name is unbound again (a later read raises UnboundLocalError)
+                continue
             if isinstance(tgt, ast.Attribute):
                 # `del self._builder`: the attribute disappears; model: no further reads are verified
                 self.note("del %s ignored (attribute removal not modelled)" % ast.unparse(tgt))
